@@ -3,7 +3,7 @@
 // extracted Coq model, and evaluates the property's own predicates (exact big-integer /
 // big-rational arithmetic, independent of the model) on the implementation's results.
 //
-//	D k s n scaleBits offsetBits raw start variant ; T:gotype v   decode of a standard signal (k: c,f,i,d;
+//	D k s n scaleBits offsetBits raw start variant muxbits ; T:gotype v   decode of a standard signal (k: c,f,i,d;
 //	                                          variant = how the type was obtained: constructor, Clone, UpdateSigned, setters)
 //	N n cnt (name idx)* raw ; name|-1                 decode of an enum signal
 //	R k s n ; minBits maxBits                         type range (k: i,d)
@@ -177,14 +177,45 @@ type decoder struct {
 	start   int
 	msg     *acmelib.Message
 	variant int
+	muxBits int // size of the multiplexer signal placed in front of the signal (0 = none)
+}
+
+// muxInFront: every third decoder whose signal leaves room puts a multiplexer signal at bit 0 of
+// the message; the decoded signal then FOLLOWS a signal Decode skips (its value must not depend on
+// the multiplexer's payload bits)
+func muxInFront(size int) int {
+	if size > 56 || variantCounter%3 != 0 {
+		return 0
+	}
+	return 3 + variantCounter%5 // group size 2..6 + 1 selector bit
+}
+
+func placeMux(msg *acmelib.Message, muxBits int) {
+	if muxBits == 0 {
+		return
+	}
+	mux, err := acmelib.NewMultiplexerSignal("mx", 2, muxBits-1)
+	if err != nil {
+		panic(err)
+	}
+	if err := msg.InsertSignal(mux, 0); err != nil {
+		panic(err)
+	}
 }
 
 func newDecoder(ts typSpec, start int) *decoder {
 	variantCounter++
-	return newDecoderV(ts, start, variantCounter%nVariants)
+	mb := muxInFront(ts.size)
+	if mb > 0 && start < mb {
+		start = mb
+	}
+	if start+ts.size > 64 {
+		start = 64 - ts.size
+	}
+	return newDecoderV(ts, start, variantCounter%nVariants, mb)
 }
 
-func newDecoderV(ts typSpec, start, variant int) *decoder {
+func newDecoderV(ts typSpec, start, variant, muxBits int) *decoder {
 	typ, err := mkType(ts, variant)
 	if err != nil {
 		panic(err)
@@ -194,6 +225,7 @@ func newDecoderV(ts typSpec, start, variant int) *decoder {
 		panic(err)
 	}
 	msg := acmelib.NewMessage("m", 1, 8)
+	placeMux(msg, muxBits)
 	if err := msg.InsertSignal(sig, start); err != nil {
 		panic(err)
 	}
@@ -206,7 +238,7 @@ func newDecoderV(ts typSpec, start, variant int) *decoder {
 		}()
 		typ.UpdateSigned(ts.signed)
 	}
-	return &decoder{ts, start, msg, variant}
+	return &decoder{ts, start, msg, variant, muxBits}
 }
 
 func payload(raw uint64, size, start int, noise uint64) []byte {
@@ -376,8 +408,8 @@ func b2i(b bool) int {
 
 func decodeCase(rc *recorder, d *decoder, raw, noise uint64, cat string) {
 	ts := d.ts
-	in := fmt.Sprintf("D %c %d %d %d %d %d %d %d", ts.kind, b2i(ts.signed), ts.size,
-		math.Float64bits(ts.scale), math.Float64bits(ts.offset), raw, d.start, d.variant)
+	in := fmt.Sprintf("D %c %d %d %d %d %d %d %d %d", ts.kind, b2i(ts.signed), ts.size,
+		math.Float64bits(ts.scale), math.Float64bits(ts.offset), raw, d.start, d.variant, d.muxBits)
 	top := ts.signed && (raw>>(ts.size-1))&1 == 1
 	nontriv := top || ts.offset != 0 || ts.scale != 1
 	dec, pan := d.run(raw, noise)
@@ -426,6 +458,9 @@ func decodeCase(rc *recorder, d *decoder, raw, noise uint64, cat string) {
 		via := ""
 		if d.variant != 0 {
 			via = "-via-" + variantName[d.variant]
+		}
+		if d.muxBits != 0 {
+			via += "-behind-multiplexer"
 		}
 		rc.fail("c03-decode-"+kindName(ts.kind)+"-"+sg+shape+via, key, line,
 			fmt.Sprintf("size %d raw %d scale %g offset %g (type obtained by %s): decoded %s, raw*scale+offset rule gives %s", ts.size, raw, ts.scale, ts.offset, variantName[d.variant], obs, exp))
@@ -958,6 +993,14 @@ func enumDecodeCase(rc *recorder, e *acmelib.SignalEnum, vals []enumVal, size, s
 		panic(err)
 	}
 	msg := acmelib.NewMessage("m", 1, 8)
+	// half of the enum signals that leave room follow a multiplexer signal placed at bit 0
+	if size <= 56 && (raw+uint64(size))%2 == 0 {
+		mb := 3 + size%5
+		if start < mb {
+			start = mb
+		}
+		placeMux(msg, mb)
+	}
 	if err := msg.InsertSignal(sig, start); err != nil {
 		panic(err)
 	}
@@ -1176,7 +1219,11 @@ func replay(rc *recorder, line string) {
 		if len(f) > 8 {
 			variant = atoi(f[8])
 		}
-		d := newDecoderV(ts, atoi(f[7]), variant)
+		mb := 0
+		if len(f) > 9 {
+			mb = atoi(f[9])
+		}
+		d := newDecoderV(ts, atoi(f[7]), variant, mb)
 		decodeCase(rc, d, atou(f[6]), 0, "replay")
 	case "R":
 		rangeCase(rc, f[1][0], f[2] == "1", atoi(f[3]))
